@@ -179,6 +179,11 @@ struct UnknownSymbolError : public Error {
     Error(location, (boost::format("could not find symbol %s") % name).str()) {}
 };
 
+struct RedefinedProcError : public Error {
+  RedefinedProcError(Location location, std::string name) :
+    Error(location, (boost::format("procedure %s is defined more than once") % name).str()) {}
+};
+
 struct NonConstArrayLengthError : public Error {
   NonConstArrayLengthError(Location location, std::string name) :
     Error(location, (boost::format("array %s length is not constant") % name).str()) {}
@@ -1753,6 +1758,12 @@ public:
     symbolMap[identifier] = std::move(symbol);
   }
 
+  /// Return the symbol with exactly this identifier, or nullptr.
+  Symbol* find(SymbolIDRef identifier) {
+    auto it = symbolMap.find(identifier);
+    return it != symbolMap.end() ? it->second.get() : nullptr;
+  }
+
   /// Lookup a symbol, and throw an exception if not found.
   Symbol* lookup(SymbolIDRef identifier, const Location &location) {
     //std::cout << "lookup " << identifier.first << ", " << identifier.second <<"\n";
@@ -1781,6 +1792,11 @@ public:
   CreateSymbols(SymbolTable &symbolTable) :
     AstVisitor(false, false, false), symbolTable(symbolTable) {}
   void visitPre(Proc &proc) {
+    // Two definitions of one name would share a symbol, a scope and a frame.
+    auto existing = symbolTable.find(std::make_pair(getCurrentScope(), proc.getName()));
+    if (existing != nullptr && dynamic_cast<Proc*>(existing->getNode()) != nullptr) {
+      throw RedefinedProcError(proc.getLocation(), proc.getName());
+    }
     auto symbolType = proc.isFunction() ? SymbolType::FUNC : SymbolType::PROC;
     symbolTable.insert(std::make_pair(getCurrentScope(), proc.getName()),
                        std::make_unique<Symbol>(symbolType, &proc, getCurrentScope(), proc.getName()));
